@@ -145,6 +145,21 @@ PROPS = {
         "level_text": "Lean theorems C06_step / C06_history / C06_terminates: for every byte string, every prior contents of the reused decoder structs and every sequence of frames, the three processors never reach a panic, emit at most one record per frame, and emit it only if the frame itself contains the flat, offset-defined header chain of Spec/Frame.lean (version 4, IHL/lengths consistent, well-delimited options, unfragmented; ARP 1/0x0800/6/4) with every record field read from that frame. Tied to the code by histories of structurally generated and malformed frames through the real ScanMethod.ProcessPacketData.",
         "level_note": "Trusted: Lean kernel; the gopacket decoder model is validated differentially (1.5k histories quick / 25k thorough), not proved.",
     },
+    "C14": {
+        "modules": ["SxVerif.Props.C14"],
+        "components": ["json"],
+        "trusted_base": [
+            "modelled, not verified: easyjson v0.7.7 jwriter.Writer.String / Uint8 / Uint16 and go1.23 encoding/json appendString (escapeHTML on), strconv.AppendInt/AppendUint, utf8.DecodeRuneInString (Model/Json.lean; validated byte-for-byte on every run, incl. all 256 single bytes through both escapers)",
+            "encoding/json's reflection walk (struct tags, omitempty, nil map/slice/pointer = null, Marshaler types such as time.Time, []byte = base64, float64 formatting) is NOT modelled: the harness computes the value tree it walks (goVal in harness/cmd/sxdiff/json.go, floatEncoder copied verbatim) and the model renders that tree (sorting Go maps); the theorems cover every well-formed tree",
+            "JSONResultWriter.Write / LogResults call structure regenerated from command/log by sxfacts (Generated/JsonWriter.lean)",
+        ],
+        "assumptions": ["fmt.Fprintf performs a single Write on its writer per call (fmt's documented buffering: the formatted text is handed to w.Write once)",
+                        "strings inside server-supplied values (elastic maps, docker Info/Version) are valid UTF-8: they are produced by encoding/json's decoder, which replaces invalid bytes by U+FFFD (the harness feeds invalid bytes through the real decoder)",
+                        "float64 literals written by encoding/json obey RFC 8259's number grammar (checked on every generated value: resultWf is part of the verdict)",
+                        "MarshalJSON does not fail (no NaN/Inf or cyclic values: unreachable from a JSON decoder); the channel is read by one logger goroutine"],
+        "level_text": "Lean theorems C14_string_easyjson / C14_string_encodingjson (the independent JSON reader undoes both string escapers on every byte string), C14_integer, C14_value (every value tree of any depth), C14_arp/_tcp/_icmp/_socks/_elastic/_docker (the line of each result type reads back as exactly the documented keys and field values, for all field strings and all trees), C14_any_bytes_partial (invalid UTF-8: still one complete object, value read back sanitised), C14_single_line, C14_writes_in_order / C14_output_lines (output = the lines in channel order, one write each), C14_uniq_* (de-duplication = first occurrences by ID: every ID once, at its first sighting, order kept) and C14_one_write_per_result over facts regenerated from command/log. Tied to the code by random hostile results of all 7 kinds through the real MarshalJSON and the real Logger/UniqueLogger (byte-for-byte and write-for-write), with the Spec reader evaluated on the real bytes.",
+        "level_note": "Trusted: Lean kernel; the escaper / strconv models and the harness-side reflection walk are validated differentially on every run, not proved; invalid UTF-8 in flat fields is covered by the weaker _partial statement (sanitised value).",
+    },
     "C18": {
         "modules": ["SxVerif.Props.C18"],
         "components": ["parse"],
